@@ -165,9 +165,14 @@ class PCoin(PStochasticPattern):
             # Initialise current_value to 1 in order to immediately trigger
             # coin() if regular is True
             self.current_value = 1.0
+        self.initial_value = self.current_value
 
     def __repr__(self):
         return ("PCoin(%s)" % self.probability)
+
+    def reset(self):
+        super().reset()
+        self.current_value = self.initial_value
 
     def __next__(self):
         probability = Pattern.value(self.probability)
